@@ -574,6 +574,9 @@ def PHI(c, a, b):
     return mk('phi', c, a, b)
 
 
+_UID = itertools.count(1)
+
+
 class Exec:
     MAX_DEPTH = 7
     MAX_EVENTS = 60000
@@ -588,7 +591,7 @@ class Exec:
         self.frame = None
         self.stack = []            # FuncRefs being executed
         self.loops = {}            # loop id -> dict(kind, iter, cond, init, update, node, target)
-        self.uid = itertools.count(1)
+        self.uid = _UID            # process-wide: two displays / calls never share an id, whichever run made them
         self.callbacks_done = set()
         self.loop_stack = []
         self.call_args = ((), ())
@@ -996,8 +999,6 @@ class Exec:
         self.ctx = entry_ctx + (('with', W),)
         ft = self.block(st.body)
         self.ctx = entry_ctx
-        if ft is not TRUE and ft is not FALSE:
-            self.pc = self.pc      # partial termination is propagated by block()
         return ft
 
     st_AsyncWith = st_With
@@ -1952,29 +1953,6 @@ def cases(atom_list, decide=None, subst=None):
         for a, b in zip(atom_list, bits):
             v.set(a, b)
         yield v
-
-
-def active(events, val, unknown_is=False):
-    """the events whose path condition holds under `val` (unknown → `unknown_is`)"""
-    out = []
-    for e in events:
-        r = truth(e.pc, val)
-        if r is True or (r is None and unknown_is):
-            out.append(e)
-    return out
-
-
-def strip_calls(t):
-    """a term with the evaluation ids of calls / displays removed — for comparing SHAPES of values"""
-    def f(x):
-        if x.op == 'call':
-            return mk('call', x.a[0], x.a[1], x.a[2])
-        if x.op in ('dict', 'list', 'set') and len(x.a) == 2:
-            return mk(x.op, x.a[0])
-        if x.op == 'merge':
-            return mk('merge', x.a[0], x.a[1])
-        return x
-    return rewrite(t, f)
 
 
 def layers(t):
